@@ -1429,7 +1429,9 @@ class Machine(Interp):
             return k in ("int", "real", "bool")
         if name in ("numbers.Integral", "numpy.integer"):
             return k in ("int", "bool") if name == "numbers.Integral" else False
-        if name in ("numpy.floating", "numpy.ndarray", "numpy.generic", "numpy.bool_"):
+        if name == "numpy.ndarray":
+            return type(v).__name__ == "SArr"
+        if name in ("numpy.floating", "numpy.generic", "numpy.bool_"):
             return False
         if name == "dict":
             return isinstance(v, (SDict, SymMap))
